@@ -221,6 +221,48 @@ Theorem C04_multi_solve_dirichlet_right bcs dz minc nAll ne n : (2 <= n)%nat -> 
 Proof. exact (solve_calls_dirichlet_right bcs dz minc nAll ne n). Qed.
 Print Assumptions C04_multi_solve_dirichlet_right.
 
+(* ---- solve calls with boundary conditions / constraints edited in between --------------------------------------------------- *)
+(* every call has its own boundary-condition table and clip limits ([callenv]); the mesh sum moves by the
+   boundary terms of each call, computed with the conditions in force during that call, plus the clip terms *)
+Theorem C04_calls_balance dz ne n : (2 <= n)%nat -> forall cs (x : list (list R)) e,
+  shape ne n x -> calls_ok ne n cs -> (e < ne)%nat ->
+  sumR (rowOf (run_calls Rops dz cs x) e) = sumR (rowOf x e) + calls_btotal dz e cs x + calls_ctotal dz e cs x.
+Proof. exact (run_calls_balance dz ne n). Qed.
+Print Assumptions C04_calls_balance.
+
+Theorem C04_calls_prescribed_fluxes dz ne n : (2 <= n)%nat -> forall cs (x : list (list R)) e,
+  shape ne n x -> calls_ok ne n cs -> (e < ne)%nat -> calls_noclip dz cs x -> calls_prescribed_bc e cs ->
+  sumR (rowOf (run_calls Rops dz cs x) e) = sumR (rowOf x e) + calls_flux_total dz e cs.
+Proof. exact (run_calls_prescribed dz ne n). Qed.
+Print Assumptions C04_calls_prescribed_fluxes.
+
+Theorem C04_calls_closed_constant dz ne n : (2 <= n)%nat -> forall cs (x : list (list R)) e,
+  shape ne n x -> calls_ok ne n cs -> (e < ne)%nat -> calls_noclip dz cs x ->
+  Forall (fun c => bcOf (c_bcs Rops c) e = bc0) cs ->
+  sumR (rowOf (run_calls Rops dz cs x) e) = sumR (rowOf x e).
+Proof. exact (run_calls_closed dz ne n). Qed.
+Print Assumptions C04_calls_closed_constant.
+
+Theorem C04_calls_dirichlet_left dz ne n : (2 <= n)%nat -> forall cs (x : list (list R)) e,
+  shape ne n x -> calls_ok ne n cs -> (e < ne)%nat ->
+  Forall (fun c => ltype Rops (bcOf (c_bcs Rops c) e) = CompBC /\ within (c_minc Rops c) (nthR (rowOf x e) 0)) cs ->
+  nthR (rowOf (run_calls Rops dz cs x) e) 0 = nthR (rowOf x e) 0.
+Proof. exact (run_calls_dirichlet_left dz ne n). Qed.
+Print Assumptions C04_calls_dirichlet_left.
+
+Theorem C04_calls_dirichlet_right dz ne n : (2 <= n)%nat -> forall cs (x : list (list R)) e,
+  shape ne n x -> calls_ok ne n cs -> (e < ne)%nat ->
+  Forall (fun c => rtype Rops (bcOf (c_bcs Rops c) e) = CompBC /\ within (c_minc Rops c) (nthR (rowOf x e) (n - 1))) cs ->
+  nthR (rowOf (run_calls Rops dz cs x) e) (n - 1) = nthR (rowOf x e) (n - 1).
+Proof. exact (run_calls_dirichlet_right dz ne n). Qed.
+Print Assumptions C04_calls_dirichlet_right.
+
+(* after a call that made at least one step, every entry lies within the limits in force during that call *)
+Theorem C04_call_bounds dz (c : callenv Rops) (x : list (list R)) :
+  c_minc Rops c <= 1 - c_minc Rops c -> c_steps Rops c <> [] -> inrange (c_minc Rops c) (run_call Rops dz c x).
+Proof. exact (run_call_bounds dz c x). Qed.
+Print Assumptions C04_call_bounds.
+
 (* ---- volume-fixed frame of the homogenization model --------------------------------------------------------------------- *)
 Theorem C04_volume_fixed_frame n mask (F U : list (list R)) i :
   length F = length U -> rows_len n F -> rows_len n U -> (i < n)%nat ->
